@@ -1072,7 +1072,9 @@ func runCheck(o *Options) (int, *Evidence) {
 		// invariant at all (a loop that is new, or that lost its contract with the function it
 		// was in): the state behind such a head is arbitrary, whatever is or is not proved
 		// there says nothing about the runs of the code
-		weakOnly := len(ob.Queries) > 0 && ob.Kind != "ownership"
+		// (a frame obligation is about a write the function makes, not about what is known at
+		// that point: it is judged as usual)
+		weakOnly := len(ob.Queries) > 0 && ob.Kind != "ownership" && ob.Kind != "frame"
 		for _, j := range ob.Queries {
 			if j.res.Status != "unsat" && !j.q.Weak {
 				weakOnly = false
